@@ -250,7 +250,34 @@ let validate_locks (lines : string list) : string =
   | None -> Printf.sprintf "OK events=%d running_left=%d held_left=%d multi_start=%s" !nev
               (List.length !st.running) (List.length !st.holder) (if dup = [] then "-" else String.concat "," dup)
 
+(* static log replay (LogRec/Catlog.v): one case per line
+     <u:0|1> <root,root,...> <name>=<K|-|Lhex> ...        (names and contents in hex)
+   names not listed are unknown to redo.  Output: status and the rendered bytes. *)
+let catlog_case (line : string) : string =
+  match List.filter (fun x -> x <> "") (String.split_on_char ' ' line) with
+  | u :: roots :: entries ->
+      let tbl = Hashtbl.create 16 in
+      List.iter (fun e ->
+        match String.index_opt e '=' with
+        | Some i ->
+            let k = String.sub e 0 i and v = String.sub e (i + 1) (String.length e - i - 1) in
+            Hashtbl.replace tbl (unhex k)
+              (if v = "-" then KNoLog else KLog (unhex (String.sub v 1 (String.length v - 1))))
+        | None -> ()) entries;
+      let lookup nm = match Hashtbl.find_opt tbl nm with Some k -> k | None -> KUnknown in
+      let top = List.map (fun c -> n_of_int (Char.code c)) ['/'; 't'; 'o'; 'p'] in
+      let canon p = Some (normpath p) in
+      let rel mydir text = relpath canon top (path_push (path_push top mydir) text) top in
+      let rec nat_of_int i = if i <= 0 then O else S (nat_of_int (i - 1)) in
+      let roots = List.map unhex (String.split_on_char ',' roots) in
+      let (st, evs) = run_log lookup rel (u = "1") (nat_of_int 200) roots [] in
+      let st = (match st with SOk -> "ok" | SExit24 -> "exit24" | SPanic -> "panic" | SFuel -> "fuel") in
+      st ^ " " ^ hex (List.concat (List.map render_ev evs))
+  | _ -> "BADCASE"
+
 let () =
+  if Array.length Sys.argv > 1 && Sys.argv.(1) = "catlog" then begin
+    (try while true do print_endline (catlog_case (input_line stdin)) done with End_of_file -> ()); exit 0 end;
   if Array.length Sys.argv > 2 && Sys.argv.(1) = "lcktrace" then begin
     let ic = open_in Sys.argv.(2) in
     let rec rd acc = match input_line ic with l -> rd (l :: acc) | exception End_of_file -> List.rev acc in
